@@ -20,7 +20,7 @@ func init() {
 		Explanation: "R07a one delimiter table: every delimiter and escape argument of the five cooperating sites of package edi - the segment scanner (ios.NewScannerByDelim*), the three strs.ByteSplitWithEsc levels (ordered by data flow: the split whose input comes from the token is the element level, the split fed by it the repetition level, the split fed by both the component level) and strs.ByteUnescape - is resolved backwards (A5: through reader struct fields, constructors, composite literals and newStrPtrByte-style helpers, call-site sensitive) to the json-tagged field of FileDecl it originates from and must be exactly segment_/element_/repetition_/component_delimiter resp. release_character; the optional levels are guarded by a len()!=0 test of the same delimiter (a dominating branch in the function or at every one of its call sites; the test itself may be hoisted into a local, a field, a bool parameter or a helper of the package); the bytes stripped from the token end (followed through helpers of the package that prepare the token) are len() of the segment delimiter, the scanner is configured to include the delimiter, and the strip is only applied to tokens known to end with it (constant scanner flags without EofAsDelim, or a dominating bytes.HasSuffix test against the segment delimiter); " +
 			"R07b unescape exactly once: no ByteUnescape on any derivation path of a value stored into RawSegElem.Data (the stores are the tokenizer's output: the pieces of each of the three split levels reach RawSegElem.Data, whatever the number of stores and helpers), and exactly one on every derivation path from a load of RawSegElem.Data to the data of a text node (idr.CreateNode(TextNode, …)); " +
 			"R07f ignore_crlf: in the function that builds the segment scanner the scanner's source is followed back through ios.NewBytesReplacingReader layers: on the alternative selected by the ignore_crlf field being set both the CR and the LF byte are replaced by nothing, on the other alternative nothing is removed; " +
-			"R07c missing element: in the segment-to-node function every return with a non-nil error carries the reader's fatal type (the type asserted by IsContinuableError's predicate) and a nil node; the block reached when the element is missing, not empty_if_missing and without default ends in such a return without creating a node; text nodes not derived from raw data carry \"\" or *Elem.Default.",
+			"R07c missing element: in the segment-to-node function every return with a non-nil error carries the reader's fatal type (the type asserted by IsContinuableError's predicate) and a nil node; the block reached when the element is missing, not empty_if_missing and without default ends in such a return without creating a node; text nodes not derived from raw data carry \"\" or *Elem.Default, and no text node mixes the two origins (the default never replaces a value present in the segment).",
 		NotDecided: "where the bytes are actually split: correctness of ByteIndexWithEsc/ByteSplitWithEsc/ByteUnescape and of the scanner's buffer growth (go-corelib, trusted), multi-byte delimiters, correctness of BytesReplacingReader itself, the other CR/LF rules (CR-only tokens skipped, CR before an LF delimiter), that `found` is computed from the right index comparison; consumers of the exported NonValidatingReader outside the repository.",
 		Trusted:    append([]string{"go-corelib strs.ByteSplitWithEsc / ByteIndexWithEsc / ByteUnescape and ios.NewScannerByDelim3 behave as documented for the (delimiter, escape) they are given", "encoding/json fills FileDecl fields according to their json tags"}, commonTrusted...),
 		Run:        runC07,
@@ -1085,7 +1085,7 @@ func c07Missing(c *core.Ctx, r *c07roles, fns []*ssa.Function, callersIn func(*s
 				if !ok || k.Value == nil || k.Value.ExactString() != r.textNode {
 					continue
 				}
-				usesDefault, good, nonRaw := false, true, 0
+				usesDefault, good, nonRaw, raw := false, true, 0, 0
 				seen := map[ssa.Value]bool{}
 				var leaves func(v ssa.Value)
 				leaves = func(v ssa.Value) {
@@ -1118,6 +1118,7 @@ func c07Missing(c *core.Ctx, r *c07roles, fns []*ssa.Function, callersIn func(*s
 						}
 					}
 					if isRaw(v) {
+						raw++
 						return // raw element data: R07b
 					}
 					nonRaw++
@@ -1138,6 +1139,12 @@ func c07Missing(c *core.Ctx, r *c07roles, fns []*ssa.Function, callersIn func(*s
 				}
 				leaves(call.Call.Args[1])
 				if nonRaw == 0 {
+					continue
+				}
+				if raw > 0 {
+					// one text node whose data is the element's raw data on some paths and something else on others: an
+					// element that IS present in the segment is replaced (seed C07-19: the default stands in for an empty value)
+					c.Bad("R07c", fk+" text node of a present element", core.InstrPos(call), "the data of a text node created for an element found in the segment is, on some path, not the element's (unescaped) raw data but a default/constant: values present in the segment are tokenized as they are, the default applies only to a missing element")
 					continue
 				}
 				c.Check(good && usesDefault, "R07c", fk+" text node for a missing element", core.InstrPos(call), "data is \"\" or the declared default",
